@@ -9,6 +9,7 @@ import (
 	"os"
 	"path/filepath"
 	"strconv"
+	"strings"
 	"sync/atomic"
 	"testing"
 	"time"
@@ -111,6 +112,16 @@ func replayPayload(t *testing.T, into any) bool {
 // regressFiles lists the committed regression cases of a property.
 func regressFiles(id string) []string {
 	m, _ := filepath.Glob(filepath.Join(ev.VerifDir(), "regress", id, "*.json"))
+	if os.Getenv("VERIF_NO_SEED_REGRESS") != "" {
+		// sensitivity runs (tools/rerun_seeds.sh, tools/try_seed.sh) measure the generators, not the stored replays of the seeded changes
+		var keep []string
+		for _, f := range m {
+			if !strings.HasPrefix(filepath.Base(f), "seed-") {
+				keep = append(keep, f)
+			}
+		}
+		return keep
+	}
 	return m
 }
 
@@ -132,6 +143,15 @@ func loadRegress(t *testing.T, path string, into any) {
 	if err := json.Unmarshal(v.Replay, into); err != nil {
 		t.Fatalf("regress %s: %v", path, err)
 	}
+}
+
+// payloadHas reports whether the stored case at path (replay or regression file) has the given top-level key:
+// checks with several payload kinds dispatch on it.
+func payloadHas(t *testing.T, path, key string) bool {
+	var m map[string]json.RawMessage
+	loadRegress(t, path, &m)
+	_, ok := m[key]
+	return ok
 }
 
 var _ = rapid.Check
